@@ -173,3 +173,244 @@ Proof. exact utc_zone_rt. Qed.
 Example C20_discipline_rejects :
   guard_discipline (mkGF true [mkGM "_add_many" true false [mkBC "calendar.service.events" false] []]) = false.
 Proof. vm_compute. reflexivity. Qed.
+
+(* ========================================================================================== *)
+(* Tie C: the same facts stated of the definitions GENERATED from the source text of calgebra/gcsa.py
+   (Gen/Source.v, rewritten on every run; equivalences: Proofs/GenEq_gcsa*.v).  A behavioural change
+   of one of these functions changes the generated term and breaks the proof quoted here. *)
+From CG Require Import Model.Loop Gen.Source.
+From CG Require Proofs.GenEq_gcsa Proofs.GenEq_gcsa2 Proofs.GenEq_gcsa3 Proofs.GenEq_gcsa4 Proofs.GenEq_gcsa5 Proofs.GenEq_gcsa6.
+Import GenEq_gcsa GenEq_gcsa2 GenEq_gcsa3 GenEq_gcsa4 GenEq_gcsa5 GenEq_gcsa6.
+
+(* _infer_is_all_day, in the zone model *)
+Example C20_source_infer_is_all_day : forall s e tz, src_infer_is_all_day s e tz = infer_all_day s e tz
+  := g_gcsa_infer_is_all_day_eq.
+Print Assumptions C20_source_infer_is_all_day.
+
+(* Calendar._fetch_reverse: each event of the range exactly once, newest first, however it is paged *)
+Example C20_source_reverse_exactly_once :
+  forall (A : Type) (sA eA : A -> Z) (evs : list A) (fuel : nat) (lo : option Z) (hi : Z),
+    let start := match lo with Some s => s | None => hi - 365 * DAY end in
+    start < hi ->
+    StronglySorted (fun a b => sA a <= sA b) evs ->
+    (forall x, In x evs -> sA x <= eA x) ->
+    hi - start <= Z.of_nat fuel * WINDOW ->
+    g_gcsa_fetch_reverse fuel (fun a b => filter (overlaps sA eA (ozd a) (ozd b)) evs) sA lo (Some hi)
+    = RDone (rev (filter (overlaps sA eA start hi) evs))
+  := @src_fetch_reverse_exactly_once.
+Print Assumptions C20_source_reverse_exactly_once.
+
+Example C20_source_reverse_is_pager :
+  forall (A : Type) (sA eA : A -> Z) (evs : list A) (fuel : nat) (lo : option Z) (hi : Z),
+    let start := match lo with Some s => s | None => hi - 365 * DAY end in
+    hi - start <= Z.of_nat fuel * WINDOW ->
+    g_gcsa_fetch_reverse fuel (fun a b => filter (overlaps sA eA (ozd a) (ozd b)) evs) sA lo (Some hi)
+    = RDone (pager sA eA fuel WINDOW evs start hi hi)
+  := @g_gcsa_fetch_reverse_eq.
+Print Assumptions C20_source_reverse_is_pager.
+
+(* _to_timestamp / _normalize_datetime and _is_all_day_event *)
+Example C20_source_to_timestamp :
+  (forall p zf, src_to_timestamp (DDt p) zf = pres_ts p (tz_or_utc zf)) /\
+  (forall d zf, src_to_timestamp (DDate d) zf = date_ts (tz_or_utc zf) d)
+  := conj g_gcsa_to_timestamp_datetime g_gcsa_to_timestamp_date.
+Print Assumptions C20_source_to_timestamp.
+
+Example C20_source_is_all_day_event : forall e, src_is_all_day_event e = is_all_day_event e
+  := g_gcsa_is_all_day_event_eq.
+Print Assumptions C20_source_is_all_day_event.
+
+(* Calendar._fetch_forward: with the calendar zone fetched, the model's forward fetch IS the generated
+   loop over what the backend hands out — so C20_read_span_exact speaks about the source text *)
+Example C20_source_fetch_forward :
+  forall (a : astate) (ctz : option zone) (lo hi : option Z),
+    a_tz a = Some ctz ->
+    let b' := fst (tick (a_b a)) in
+    fetch_forward a lo hi =
+    (mkA b' (a_tz a), if snd (tick (a_b a)) then Some (src_fetch_forward b' ctz lo hi) else None)
+  := g_gcsa_fetch_forward_eq.
+Print Assumptions C20_source_fetch_forward.
+
+(* the read path restated on the generated loop: a row of the backend that the generated
+   _fetch_forward converts comes back with the instants the backend holds *)
+Theorem C20_source_read_span_exact :
+  forall (b : bstate) (w : row) (ev : aev),
+    let ctz := Some (bs_zone b) in
+    row_wf b w ->
+    (s_allday (w_ev w) = false -> pres_ok b (w_ev w)) ->
+    (s_allday (w_ev w) = false -> s_pres (w_ev w) = KNaive -> src_is_all_day_event (present b w) = false) ->
+    conv1 ctz (present b w) = Some ev ->
+    e_s ev = w_s w /\ Some (e_e ev) = w_e w /\ Some (e_id ev) = w_id w.
+Proof.
+  intros b w ev ctz Hwf Hok Hn Hc.
+  pose (a := mkA b (Some ctz)).
+  assert (Hconv : convert a (present (a_b a) w) = (a, Some (Some ev))).
+  { rewrite (convert_fetched a ctz _ eq_refl). cbn [a_b a]. rewrite Hc. reflexivity. }
+  destruct (read_span_exact a a w ev eq_refl Hwf Hok) as (H1 & H2 & H3 & _).
+  - intros H4 H5. rewrite <- g_gcsa_is_all_day_event_eq. exact (Hn H4 H5).
+  - exact Hconv.
+  - auto.
+Qed.
+Print Assumptions C20_source_read_span_exact.
+
+(* the reverse read as a whole: Calendar._fetch_reverse over Calendar._fetch_forward *)
+Example C20_source_fetch_reverse_is_model :
+  forall (z : zone) (st : list sev) (ctz : option zone) (a : astate) (lo : option Z) (hi : Z),
+    quiet z st ctz a ->
+    let start := match lo with Some s => s | None => hi - 365 * DAY end in
+    match g_gcsa_fetch_reverse (Z.to_nat ((hi - start) / WINDOW + 2))
+            (src_fetch_forward (mkBS z st 0 0 []) ctz) e_s lo (Some hi) with
+    | RDone l => snd (fetch_reverse a lo (Some hi)) = Some l
+    | _ => False
+    end
+  := src_fetch_reverse_is_model.
+Print Assumptions C20_source_fetch_reverse_is_model.
+
+(* EXDATE strings and lines *)
+Example C20_source_format_exdate : forall t, src_format_exdate t = format_exdate t /\ parse_exd (src_format_exdate t) = t
+  := fun t => conj (g_gcsa_format_exdate_eq t) (src_format_exdate_parses t).
+Print Assumptions C20_source_format_exdate.
+
+Example C20_source_add_exdate : forall l x, src_add_exdate l x = add_exdate l x := g_gcsa_add_exdate_to_rrule_eq.
+Print Assumptions C20_source_add_exdate.
+
+(* instance removal stated of the source text: the line _add_exdate_to_rrule writes keeps the other
+   parts and stands for the old series minus exactly the excluded occurrence *)
+Theorem C20_source_instance_removal_exact :
+  forall (b : bstate) (st : sev) (r : srec) (t : Z) (lo hi : option Z),
+    single_ex (r_line r) = true -> is_ex (hd TRule (r_line r)) = false ->
+    let l' := src_add_exdate (r_line r) (src_format_exdate t) in
+    rule_toks l' = rule_toks (r_line r) /\
+    instances b st (with_line r l') lo hi = filter (fun w => negb (w_s w =? t)) (instances b st r lo hi).
+Proof.
+  intros b st r t lo hi H1 H2 l'. subst l'.
+  rewrite g_gcsa_format_exdate_eq, g_gcsa_add_exdate_to_rrule_eq.
+  destruct (C20_instance_removal_exact b st r (format_exdate t) lo hi H1 H2) as [Ha Hb].
+  split; [exact Ha|]. rewrite Hb. rewrite parse_format_exdate. reflexivity.
+Qed.
+Print Assumptions C20_source_instance_removal_exact.
+
+(* Calendar._remove_recurring_instance over the simulated backend *)
+Example C20_source_remove_instance_is_model :
+  forall (a : astate) (ev : aev) (m : N),
+    let b1 := fst (tick (a_b a)) in
+    let ok1 := snd (tick (a_b a)) in
+    let ok2 := snd (tick b1) in
+    src_remove_instance
+      (fun id => if ok1 then match find_ev id (bs_store b1) with Some st => inl st | None => inr tt end else inr tt)
+      (fun _ => if ok2 then inl tt else inr tt) ev m
+    = RDone (snd (remove_instance a ev m))
+  := src_remove_instance_is_model.
+Print Assumptions C20_source_remove_instance_is_model.
+
+(* the write path of one event: what is sent to the backend is the model's request, and
+   Calendar._add_interval is prepare / build / one call / result *)
+Example C20_source_prepare : forall ctz w, src_build_gcsa_event (src_prepare ctz w) = prepare ctz w
+  := g_gcsa_prepare_build_eq.
+Print Assumptions C20_source_prepare.
+
+Example C20_source_add_interval :
+  forall (a : astate) (ctz : option zone) (w : wev),
+    a_tz a = Some ctz ->
+    add_interval a w =
+    let p := src_prepare ctz w in
+    let '(b2, ok) := tick (a_b a) in
+    if ok then
+      match b_store b2 (src_build_gcsa_event p) with
+      | (b3, Some id) => (with_b a b3, [src_build_result_event p id])
+      | (_, None) => (with_b a b2, [failed])
+      end
+    else (with_b a b2, [failed])
+  := src_add_interval_is_model.
+Print Assumptions C20_source_add_interval.
+
+(* add, then read — on the generated definitions at both ends: the event Calendar.add() reports comes
+   back from the generated _fetch_forward conversion with the same span *)
+Theorem C20_source_add_then_read :
+  forall (a a1 : astate) (w : wev) (id : N) (ad : bool) (s e : Z),
+    a_tz a = Some (Some (bs_zone (a_b a))) ->
+    add_interval a w = (a1, [(true, Some (EId id, s, e, ad))]) ->
+    (ad = true ->
+     let z := bs_zone (a_b a) in
+     utc_to_wall z (v_s w) mod DAY = 0 /\ utc_to_wall z (v_e w) mod DAY = 0 /\
+     unfolded z (v_s w) /\ unfolded z (v_e w)) ->
+    ad = q_allday (src_build_gcsa_event (src_prepare (Some (bs_zone (a_b a))) w)) /\
+    s = v_s w /\ e = v_e w /\
+    exists st r,
+      In st (bs_store (a_b a1)) /\ rows_of_ev (a_b a1) None None st = [r] /\
+      forall ev, conv1 (Some (bs_zone (a_b a1))) (present (a_b a1) r) = Some ev ->
+                 e_s ev = v_s w /\ e_e ev = v_e w /\ e_id ev = EId id.
+Proof.
+  intros a a1 w id ad s e Htz Hadd Hmid.
+  assert (Had : ad = q_allday (src_build_gcsa_event (src_prepare (Some (bs_zone (a_b a))) w))).
+  { rewrite (src_add_interval_is_model a _ w Htz) in Hadd. cbv zeta in Hadd.
+    destruct (tick (a_b a)) as [b2 ok]. destruct ok; [|discriminate].
+    destruct (b_store b2 _) as [b3 [id'|]]; [|discriminate].
+    rewrite g_gcsa_build_result_event_eq in Hadd. rewrite g_gcsa_prepare_build_eq.
+    injection Hadd as _ _ _ _ Hq. symmetry. exact Hq. }
+  split; [exact Had|].
+  destruct (add_then_read a a1 w id ad s e Htz Hadd Hmid) as (Hs & He & st & r & Hin & Hrows & _ & _ & _ & Hread).
+  split; [exact Hs|]. split; [exact He|].
+  exists st, r. split; [exact Hin|]. split; [exact Hrows|].
+  intros ev Hc.
+  assert (Htz1 : a_tz a1 = Some (Some (bs_zone (a_b a1)))).
+  { unfold add_interval, cal_tz in Hadd. rewrite Htz in Hadd. cbv zeta in Hadd.
+    destruct (tick (a_b a)) as [b2 ok] eqn:Et. destruct ok; [|discriminate].
+    pose proof (tick_keeps (a_b a)) as [Hz _]. rewrite Et in Hz. cbn [fst] in Hz.
+    unfold b_store in Hadd.
+    destruct (if q_allday _ then _ else _); [discriminate|].
+    injection Hadd as <- _. cbn [with_b a_tz a_b bs_zone]. rewrite Htz, Hz. reflexivity. }
+  apply (Hread a1 ev). rewrite (convert_fetched a1 _ _ Htz1). rewrite Hc. reflexivity.
+Qed.
+Print Assumptions C20_source_add_then_read.
+
+(* Calendar._add_recurring *)
+Example C20_source_add_recurring :
+  forall (dv_now : zone -> dv) (dv_midnight : dv -> dv) (a : astate) (ctz : option zone) (p : wpat),
+    a_tz a = Some ctz -> zone_rt (p_zone p) ->
+    let b2 := fst (tick (a_b a)) in
+    snd (tick (a_b a)) = true ->
+    add_recurring a p =
+    (match b_store b2 (rec_request ctz p) with (b3, Some _) => with_b a b3 | (_, None) => with_b a b2 end,
+     src_add_recurring dv_now dv_midnight (fun q => snd (b_store b2 q)) ctz p)
+  := src_add_recurring_is_model.
+Print Assumptions C20_source_add_recurring.
+
+(* the wrapper of @_handle_write_errors never lets an Exception of the wrapped method escape *)
+Example C20_source_handle_write_errors :
+  forall (EXC WRS : Type) (wrs_error : EXC -> WRS) (r : WRS + EXC),
+    g_gcsa_handle_write_errors wrs_error r = RDone (match r with inl v => v | inr e => wrs_error e end)
+  := @g_gcsa_handle_write_errors_eq.
+Print Assumptions C20_source_handle_write_errors.
+
+(* Calendar.fetch over the generated forward and reverse fetches *)
+Example C20_source_fetch :
+  forall (z : zone) (st : list sev) (ctz : option zone) (a : astate) (lo : option Z) (h : Z) (rv : bool),
+    quiet z st ctz a ->
+    let ffw := src_fetch_forward (mkBS z st 0 0 []) ctz in
+    snd (fetch a lo (Some h) rv) = Some (g_gcsa_fetch ffw (src_reverse_list ffw) lo (Some h) rv)
+  := src_fetch_is_model.
+Print Assumptions C20_source_fetch.
+
+(* Calendar._add_interval as a whole (its own text, over the generated helpers) *)
+Example C20_source_add_interval_full :
+  forall (a : astate) (ctz : option zone) (w : wev),
+    a_tz a = Some ctz -> snd (tick (a_b a)) = true ->
+    snd (add_interval a w) = src_add_interval (fun q => snd (b_store (fst (tick (a_b a))) q)) ctz w
+  := src_add_interval_full_is_model.
+Print Assumptions C20_source_add_interval_full.
+
+(* Calendar._add_many: one failed result per event when the batch raises; and the final statement of
+   _add_many_batch returns the results in the order of the input events *)
+Example C20_source_add_many :
+  forall (a : astate) (l : list wev),
+    g_gcsa_add_many (model_batch a) (fun _ => failed) l tt = RDone (snd (add_many a l))
+  := src_add_many_is_model.
+Print Assumptions C20_source_add_many.
+
+Example C20_source_add_many_batch_order :
+  forall (I WR : Type) (missing : WR) (results : list WR) (events : list I),
+    length results = length events ->
+    g_gcsa_add_many_batch_results (fun d i => nth (Z.to_nat i) d missing) results events = results
+  := @g_gcsa_add_many_batch_results_eq.
+Print Assumptions C20_source_add_many_batch_order.
